@@ -342,8 +342,17 @@ impl<'a, 'tcx> Cx<'a, 'tcx> {
                 self.fn_info(e.ty, &mut o);
                 mk("Zst", o)
             }
-            ExprKind::NamedConst { def_id, .. } => {
-                mk("Const", vec![("def", J::s(path_str(self.tcx, *def_id)))])
+            ExprKind::NamedConst { def_id, args, .. } => {
+                let mut o = vec![("def", J::s(path_str(self.tcx, *def_id)))];
+                // an associated const of a trait: which implementation is meant is in the generic arguments (args[0] = Self)
+                if self.tcx.trait_of_assoc(*def_id).is_some() {
+                    if let Some(a0) = args.iter().next() {
+                        if let Some(t) = a0.as_type() {
+                            o.push(("self_ty", J::s(ty_str(self.tcx, t))));
+                        }
+                    }
+                }
+                mk("Const", o)
             }
             ExprKind::ConstParam { def_id, .. } => {
                 mk("ConstParam", vec![("def", J::s(path_str(self.tcx, *def_id)))])
